@@ -46,7 +46,7 @@ def events(ids: list[Any], pars: list[Any]) -> list[OTelEvent]:
             parent = IDS[0] if eid != IDS[0] else ""
         out.append(OTelEvent.model_construct(
             job_name=f"name{n}", job_id=f"t{n % 2}", event_type=f"T{n}", event_id=eid,
-            start_timestamp=10 + n, end_timestamp=20 + n, application_name=f"app{n}",
+            start_timestamp=10 + (n * 3) % 5, end_timestamp=20 + n, application_name=f"app{n}",   # arrival order != start order
             parent_event_id=parent, child_event_ids=None))
     return out
 
